@@ -2,6 +2,7 @@
 //! autoref-based specialisation.  Today it holds `Rc`/`RefCell` state and is neither, so there
 //! is no thread schedule to explore for C17; if that ever changes the evidence says so.
 
+#![allow(dead_code)]
 use geo::PreparedGeometry;
 use geo_types::Polygon;
 use std::marker::PhantomData;
